@@ -186,6 +186,34 @@ func (p *Prog) wireInfo(ct *CodecType) (consts []string, delegated bool, ok bool
 			return nil, false, false
 		}
 		e := ast.Unparen(r.Results[0])
+		// wt := X; return wt - a local given its value exactly once stands for X
+		if id, isID := e.(*ast.Ident); isID {
+			if v, isVar := info.Uses[id].(*types.Var); isVar && v.Parent() != nil && v.Parent() != mr.Pkg.Types.Scope() {
+				var rhs []ast.Expr
+				ast.Inspect(mr.Decl.Body, func(n ast.Node) bool {
+					switch x := n.(type) {
+					case *ast.AssignStmt:
+						if len(x.Lhs) == len(x.Rhs) {
+							for i, l := range x.Lhs {
+								if lid, ok := l.(*ast.Ident); ok && (info.Defs[lid] == types.Object(v) || info.Uses[lid] == types.Object(v)) {
+									rhs = append(rhs, x.Rhs[i])
+								}
+							}
+						}
+					case *ast.ValueSpec:
+						for i, nm := range x.Names {
+							if info.Defs[nm] == types.Object(v) && i < len(x.Values) {
+								rhs = append(rhs, x.Values[i])
+							}
+						}
+					}
+					return true
+				})
+				if len(rhs) == 1 {
+					e = ast.Unparen(rhs[0])
+				}
+			}
+		}
 		if n := constName(info, e); n != "" {
 			consts = append(consts, n)
 			continue
